@@ -35,6 +35,8 @@
 (*        first bank even when it names another (or an unknown) bank                             *)
 (*   "PrgHeaderInSeparateFile"      the prg header is written to the default file name even when *)
 (*        the (only) bank has its own filename                                                   *)
+(*   "EmptySegmentStretchesBank"    Bank::merge lets a segment that holds no byte stretch a bank  *)
+(*        that already holds data (min/max with the empty range start..start)                     *)
 EXTENDS Integers, Sequences, FiniteSets, TLC
 
 Off  == [on |-> FALSE, v |-> 0]
@@ -143,14 +145,17 @@ Analyse(cfg) ==
          (*   reach it): the code reports it as a diagnostic since ec96d7b; padding to `size` is accepted as well. *)
          (*   (a negative size needs no rule: every image is larger than it -> "oversize" in must)                *)
          \cup (IF \E j \in Idx(eb) : eb[j].size.on /\ eb[j].size.v > 65536 THEN {"sizerange"} ELSE {})
-      (* outside the property's quantifier: empty segments (they write no address; the code lets them    *)
-      (* stretch the bank range depending on merge order); prg header of a bank that holds no byte        *)
-      unspec == \/ \E i \in Idx(ps) : Len(ps[i].bytes) = 0
+         (*   a segment without bytes whose start lies outside the address space: no data is outside $0000-$FFFF, *)
+         (*   but the definition itself may be refused (the code does since the range fixes)                       *)
+         \cup (IF \E i \in Idx(ps) : Len(ps[i].bytes) = 0 /\ (ps[i].lo < 0 \/ ps[i].lo > 65535) THEN {"range"} ELSE {})
+      (* outside what the property determines: the prg header of a bank that holds no byte.  (A segment without *)
+      (* bytes writes no address: it is simply not part of any image - see Written.)                             *)
+      unspec ==
                 \/ OutFmt(cfg) = "prg" /\ Len(img[1].data) = 0
                 (* a fill value that is not a byte cannot be "held" by any byte of a file (the code keeps its low 8 bits) *)
                 \/ \E j \in Idx(eb) : eb[j].fill.on /\ eb[j].fill.v \notin 0..255
   IN [must |-> must, may |-> may, unspec |-> unspec,
-      banks |-> [j \in Idx(eb) |-> [name |-> eb[j].name, lo |-> img[j].lo, hi |-> img[j].lo + Len(pad[j]), data |-> pad[j]]],
+      banks |-> [j \in Idx(eb) |-> [name |-> eb[j].name, lo |-> img[j].lo, hi |-> img[j].lo + Len(pad[j]), data |-> pad[j], written |-> Len(img[j].data) > 0]],
       files |-> [f \in fns |-> hdr(f) \o cat(f)]]
 
 (* an outcome: [ok : BOOLEAN, files : Seq([name, data])]  (files in any order) *)
@@ -211,8 +216,11 @@ CheckAssign(bks, segs) == \E i \in Idx(segs) : segs[i].bank.s \notin {bks[j].nam
 Selected(segs, b) == {i \in Idx(segs) : segs[i].bank.s = b.name /\ segs[i].write}
 EmptyBank(b) == [name |-> b.name, lo |-> 0, hi |-> 0, data |-> <<>>, opt |-> b]
 
-(* Bank::merge *)
-BankMerge(bk, sg) ==
+(* Bank::merge.  As written, the code takes min/max with the range start..start of a segment that holds no byte, so  *)
+(* such a segment stretches a bank that already holds data (deviation "EmptySegmentStretchesBank"); without the       *)
+(* deviation a segment without data leaves a bank that holds data untouched.                                         *)
+BankMerge(bk, sg, D) ==
+  IF sg.lo >= sg.hi /\ bk.lo < bk.hi /\ "EmptySegmentStretchesBank" \notin D THEN bk ELSE
   LET f == FillOf(bk.opt)
       grown == IF bk.lo >= bk.hi
                  THEN [bk EXCEPT !.lo = sg.lo, !.hi = sg.hi, !.data = Rep(f, sg.hi - sg.lo)]
@@ -248,9 +256,9 @@ WriteOne(files, bk, defname) ==
     ELSE Append(files, [name |-> f, data |-> bk.data])
 
 (* the same steps as a function (the judge needs the result, not the run) *)
-RECURSIVE MergeAll(_, _, _)
-MergeAll(bk, segs, todo) ==       \* todo: set of selected indices still to merge, smallest first
-  IF todo = {} THEN bk ELSE LET i == BMin(todo) IN MergeAll(BankMerge(bk, segs[i]), segs, todo \ {i})
+RECURSIVE MergeAll(_, _, _, _)
+MergeAll(bk, segs, todo, D) ==       \* todo: set of selected indices still to merge, smallest first
+  IF todo = {} THEN bk ELSE LET i == BMin(todo) IN MergeAll(BankMerge(bk, segs[i], D), segs, todo \ {i}, D)
 RECURSIVE WriteAll(_, _, _)
 WriteAll(files, bks, defname) ==
   IF Len(bks) = 0 THEN files ELSE WriteAll(WriteOne(files, Head(bks), defname), Tail(bks), defname)
@@ -262,7 +270,7 @@ Outcome(cfg, D) ==
   ELSE LET fin == Finalize(cfg, ps, D) IN
   IF fin.err THEN Failed({"nobank"})
   ELSE IF cfg.fmt = "prg" /\ Len(fin.banks) # 1 THEN Failed({"prgmulti"})
-  ELSE LET sized == [j \in Idx(fin.banks) |-> SizeBank(MergeAll(EmptyBank(fin.banks[j]), fin.segs, Selected(fin.segs, fin.banks[j])))]
+  ELSE LET sized == [j \in Idx(fin.banks) |-> SizeBank(MergeAll(EmptyBank(fin.banks[j]), fin.segs, Selected(fin.segs, fin.banks[j]), D))]
            errs == (IF CheckAssign(fin.banks, fin.segs) THEN {"unknownbank"} ELSE {}) \cup UNION {sized[j].err : j \in Idx(sized)}
        IN IF errs # {} THEN Failed(errs)
           ELSE LET merged == [j \in Idx(sized) |-> sized[j].bank]
@@ -276,15 +284,22 @@ WitnessLone(cfg) == /\ Len(cfg.segs) = 1 /\ cfg.segs[1].bank.on
                     /\ cfg.segs[1].bank.s # EffBanks(cfg)[1].name
 WitnessHeader(cfg) == /\ OutFmt(cfg) = "prg" /\ Len(EffBanks(cfg)) = 1
                       /\ EffBanks(cfg)[1].fname.on /\ EffBanks(cfg)[1].fname.s # DefName(cfg)
+(* a writable segment without bytes that is registered after a writable segment with bytes of the same bank *)
+WitnessEmpty(cfg) == \E i, j \in Idx(cfg.segs) : /\ j < i /\ cfg.segs[i].write /\ cfg.segs[j].write
+                                                  /\ Len(cfg.segs[i].bytes) = 0 /\ Len(cfg.segs[j].bytes) > 0
+                                                  /\ BankOf(cfg, i) = BankOf(cfg, j)
 SameOutcome(o, m) == o.ok = m.ok /\ (o.ok => UniqueNames(o) /\ FilesFn(o) = FilesFn(m))
 (* "" or the name of the known deviation that explains outcome o exactly *)
 KnownDeviation(cfg, o) ==
   IF WitnessLone(cfg) /\ SameOutcome(o, Outcome(cfg, {"SingleSegmentBankOverridden"})) THEN "SingleSegmentBankOverridden"
   ELSE IF WitnessHeader(cfg) /\ SameOutcome(o, Outcome(cfg, {"PrgHeaderInSeparateFile"})) THEN "PrgHeaderInSeparateFile"
+  ELSE IF WitnessEmpty(cfg) /\ SameOutcome(o, Outcome(cfg, {"EmptySegmentStretchesBank"})) THEN "EmptySegmentStretchesBank"
   ELSE IF WitnessLone(cfg) /\ WitnessHeader(cfg)
           /\ SameOutcome(o, Outcome(cfg, {"SingleSegmentBankOverridden", "PrgHeaderInSeparateFile"})) THEN "SingleSegmentBankOverridden"
   ELSE ""
 (* the same for the merged banks seen in-process (the lone-segment rule can hide in identical files) *)
 KnownDeviationBanks(cfg, obanks) ==
-  IF WitnessLone(cfg) /\ obanks = Outcome(cfg, {"SingleSegmentBankOverridden"}).banks THEN "SingleSegmentBankOverridden" ELSE ""
+  IF WitnessLone(cfg) /\ obanks = Outcome(cfg, {"SingleSegmentBankOverridden"}).banks THEN "SingleSegmentBankOverridden"
+  ELSE IF WitnessEmpty(cfg) /\ obanks = Outcome(cfg, {"EmptySegmentStretchesBank"}).banks THEN "EmptySegmentStretchesBank"
+  ELSE ""
 =============================================================================
